@@ -244,6 +244,7 @@ func (c *verifBatchClient) Batch(remote string, bReq *batchRequest) (*BatchRespo
 			form := 1 + e.env("expiredform", 3)
 			res.Objects = append(res.Objects, mk(o, form))
 			e.lastAct[o.Oid] = "expired"
+			e.obs.Attempts = append(e.obs.Attempts, VerifAttempt{Kind: "expired-offer", Oid: o.Oid, Start: now, End: now, Outcome: "expired-offer", Call: call})
 		case 6: // plus an object nobody asked about
 			res.Objects = append(res.Objects, mk(o, 0), mk(&Transfer{Oid: strings.Repeat("9", 64), Size: 7}, 0))
 			e.lastAct[o.Oid] = "action"
@@ -646,6 +647,26 @@ func verifOracleC15(cfg VerifCfg, obs *VerifObs) {
 		var prev *VerifAttempt
 		for i := range as {
 			a := as[i]
+			if a.Kind == "expired-offer" {
+				// the server's offer for this object had already expired (or expires within the 5 s margin): the object
+				// must be asked about again in a later batch call, unless its retry budget is spent and an error names it
+				again := false
+				for _, b := range as[i+1:] {
+					if b.Kind == "batch" && b.Call > a.Call {
+						again = true
+					}
+				}
+				covered := false
+				for _, e := range obs.Errors {
+					if strings.Contains(e, oid) || strings.Contains(e, short) || strings.Contains(e, "file-"+strings.ToUpper(short[:1])) || strings.Contains(e, "batch-fail-") || strings.Contains(e, "adapter-begin-failed") {
+						covered = true
+					}
+				}
+				if !again && !covered && obs.Panic == "" && !obs.Deadlock {
+					v("C15:expired-not-rerequested:"+cause, fmt.Sprintf("the action offered for %s in batch call #%d had expired; it was neither requested again nor reported as an error", short, a.Call))
+				}
+				continue
+			}
 			if a.Kind == "batch" {
 				nb++
 			} else {
